@@ -21,6 +21,21 @@ CHECKS = {
  "C05": dict(engine="e1", technique="bounded-exhaustive input enumeration against reference substring/prefix/postfix/exact relations",
    text="Every case of the bounded domain is decided by reference implementations of the four documented relations (all occurrences, leftmost-with-highest-bonus rule, whitespace-stripping rules) and compared with both variants of the four real entry points, including the reported occurrence.",
    note="Bounded; open known finding F2 for the (Ascii, Unicode) representation pair."),
+ "C10": dict(engine="e1", technique="exhaustive enumeration: all accepted (haystack_len, needle_len) shapes of the scratch-slab layout (complete), all entry points on bounded input domains and large-shape families under overflow checks, all call sequences up to a depth on one shared matcher",
+   text="Memory safety of the scratch slab is decided by running the real MatrixSlab::alloc on every shape it can accept (about 1.2 million (h,n) pairs x 2 character types, a superset of the accepted domain) and checking that the five views it hands out lie inside the allocation, aligned and disjoint; totality by calling all twelve entry points on complete bounded domains plus shapes on both sides of every guard and needles up to 6000 characters in a build where overflow and debug assertions panic; history independence by comparing, for every call sequence up to the depth bound over a pool of 40 residue-leaving calls, the last result on a shared matcher with a fresh matcher.",
+   note="Extents are read through a cfg(nucleo_verif) accessor that calls the real alloc; large inputs are structured families (exhaustive in lengths, not content); out-of-bounds accesses inside a correctly sized view would surface as slice-index panics (safe code)."),
+ "C14": dict(engine="e1", technique="exhaustive enumeration of all pattern strings over an 11-symbol marker/escape/space/ASCII/non-ASCII alphabet up to a length bound against a reference grammar; all ordered reparse pairs",
+   text="Every string up to the bound goes through Pattern::parse, Pattern::new (5 kinds), Atom::parse and Atom::new (escape on/off) under 3x2 case/normalisation settings and is compared atom by atom (kind, polarity, needle text, both flags) with a reference parser written from the statement; the escaped form of every literal text must round-trip; reparse on a used object equals a fresh parse for all ordered pairs.",
+   note="Bounded length (5 quick / 6 thorough); combining marks excluded (grapheme truncation is documented); private flags read from Debug output."),
+ "C15": dict(engine="e1", technique="exhaustive enumeration of atom lists (every kind and polarity) x haystack pool x configurations on a shared matcher, against per-atom direct matcher calls on fresh matchers",
+   text="Every list of up to 3 (thorough 4) atoms from a 14-atom pool x 30 haystacks x 2 configurations: Pattern::score/indices must equal the conjunction computed from direct matcher calls per atom on fresh matchers, indices must be the concatenation of the positive atoms' indices after untouched prior content; every two-column MultiPattern over a text pool x all haystack pairs; match_list on every input list up to a length bound against a reference stable sort.",
+   note="Pools are fixed lists chosen to cover every kind/polarity/smart-case/smart-normalisation combination; bounded list lengths."),
+ "C16": dict(engine="e1", technique="complete enumeration of all 1,112,064 Unicode scalar values x 4 configurations (no bound)",
+   text="The whole domain is finite and is enumerated completely: simple case folding and the decomposition rule against tables derived from Python's unicodedata, block confinement, idempotence, ASCII stability, and coherence of every normalising code path exercised through the six matcher algorithms on three haystack shapes per character.",
+   note="Reference data is Unicode 14 (python3 unicodedata); code points unassigned there are not constrained for folding; characters whose composite normal form is not a fixed point are outside the matcher's documented precondition and only counted."),
+ "C17": dict(engine="e1", technique="exhaustive enumeration of all strings over a 12-symbol grapheme-relevant alphabet up to a length bound x 7 constructors x every slice range against unicode-segmentation",
+   text="Every string of up to 5 (thorough 6) code points over ASCII, CR, LF, precomposed, combining mark, ZWJ, emoji, regional indicator, Hangul jamo and a prepend character is converted by every constructor and compared with one-char-per-extended-grapheme-cluster content, representation choice, length, indexing, iteration both ways, Display and every slice/slice_u32 range on borrowed and owned types.",
+   note="unicode-segmentation is the trusted definition of grapheme clusters; bounded length."),
 }
 PLANNED = {
  "C06":"check not built yet (planned: controlled scheduler over the real threads, DESIGN.md 2.2)",
